@@ -7,6 +7,7 @@ import WD.Driver.C10
 import WD.Driver.C13
 import WD.Driver.Obs
 import WD.Driver.C08
+import WD.Driver.C12
 open WD.Driver WD.Proto
 
 def handle (line : String) : String :=
@@ -16,6 +17,8 @@ def handle (line : String) : String :=
   | "subcreated" :: ts => c14Line "subcreated" ts
   | "rekey" :: ts => c14Line "rekey" ts
   | "dq" :: ts => c17Line ts
+  | "fd" :: ts => c12Line "fd" ts
+  | "fdctor" :: ts => c12Line "fdctor" ts
   | "ib" :: ts => c08Line ts
   | "obs" :: ts => obsLine ts
   | "reg" :: ts => c13Line ts
